@@ -1,6 +1,7 @@
 """C04 — totality: panic-edge inventory with re-verified guards (recursion budget: R18.3/R18.4)."""
 import json
 import os
+import re
 
 from engine import rule, AnchorLost, VERIF
 from model import Super, strace, fn_of, trace, is_place, site, const_value
@@ -26,6 +27,19 @@ def kind_of_call(f):
     return None
 
 
+def _overflow_ty(b, t):
+    """`:u8` for the overflow check of a u8 addition: arithmetic in a narrower type is a different obligation from
+    the same arithmetic in usize, so the reviewed multiset keeps them apart."""
+    if not t["msg"].startswith("overflow:"):
+        return ""
+    cond = t.get("cond")
+    if cond and is_place(cond) and cond["p"]["pr"]:
+        m = re.match(r"^\((\w+), bool\)$", b.local_ty(cond["p"]["l"]))
+        if m:
+            return ":" + m.group(1)
+    return ""
+
+
 def panic_edges(crate):
     """{function: {kind: [lines]}} of panic-capable MIR edges."""
     out = {}
@@ -34,7 +48,7 @@ def panic_edges(crate):
         for bi in sorted(b.reach()):
             t = b.blocks[bi]["term"]
             if t["k"] == "assert":
-                ks.setdefault("assert:" + t["msg"], []).append((bi, t["line"]))
+                ks.setdefault("assert:" + t["msg"] + _overflow_ty(b, t), []).append((bi, t["line"]))
             elif t["k"] == "call":
                 f = fn_of(t)
                 if f:
@@ -137,8 +151,34 @@ def _subslice_of(b, y, x, seen=None):
     return True
 
 
-def _min_with_len_of(b, op, recv_root, at_bb=None):
+def _min_with_len_of(b, op, recv_root, at_bb=None, _depth=0):
     """`op` is min(len(recv), _) (std::cmp::min or Ord::min), recv being the slice with root local recv_root."""
+    # `head.len()` with `(head, _) = x.split_at(m)`: the head's length is m
+    hl = _len_of(b, op)
+    if hl is not None and _depth < 3:
+        hd = b.whole_defs(hl)
+        if len(hd) == 1 and hd[0][2] == "assign" and hd[0][3]["rv"]["k"] == "use" and is_place(hd[0][3]["rv"]["op"]):
+            hp = hd[0][3]["rv"]["op"]["p"]
+            if len(hp["pr"]) == 1 and hp["pr"][0]["k"] == "field" and hp["pr"][0].get("i", hp["pr"][0].get("name")) in (0, "0"):
+                td = b.whole_defs(hp["l"])
+                if len(td) == 1 and td[0][2] == "call" and kind_of_call(fn_of(td[0][3]) or {}) in ("call:split_at", "call:split_at_mut") and len(td[0][3]["args"]) == 2:
+                    # the head is bound once, in the block the split returns to (every path from the split to the
+                    # use binds it anew); the split point must satisfy the claim where the split is made
+                    sb = td[0][0]
+                    if _min_with_len_of(b, td[0][3]["args"][1], recv_root, sb, _depth + 1) and not _redefined_between(b, (recv_root,), sb, at_bb) and hd[0][0] == td[0][3].get("target"):
+                        return True
+    # the value a same-crate helper returns for this very slice: `n = self.copy_into(buf)?` where every value the
+    # helper returns is min(buf.len(), ..) of its own parameter
+    if _depth < 3 and recv_root is not None and at_bb is not None:
+        hr = trace(b, op, passthrough_extra=("std::ops::Try::branch",))
+        if hr.origin and hr.origin[0] == "call" and all(s_[0] in ("use", "call") or s_ == ("field", "0", "std::ops::ControlFlow") or s_ == ("downcast", "Continue") for s_ in hr.steps):
+            hf = fn_of(hr.origin[2]) or {}
+            callee = b.crate.by_id.get(hf.get("resolved") or hf.get("def")) if hf.get("local") else None
+            if callee is not None and callee.id != b.id:
+                via_try = any(s_ == ("downcast", "Continue") for s_ in hr.steps)
+                pidx = [i for i, a in enumerate(hr.origin[2]["args"]) if _slice_root(b, a) == recv_root]
+                if len(pidx) == 1 and _returns_min_of_param(callee, pidx[0] + 1, via_try, _depth) and not _redefined_between(b, (recv_root,), hr.origin[1], at_bb):
+                    return True
     tr = trace(b, op)
     if not (tr.origin and tr.origin[0] == "call" and all(s_[0] == "use" for s_ in tr.steps)):
         return False
@@ -155,6 +195,32 @@ def _min_with_len_of(b, op, recv_root, at_bb=None):
         if db == at_bb or (db != mb and db in b.reachable_from(mb, removed_nodes=[at_bb]) and at_bb in b.reachable_from(db, removed_nodes=[mb])):
             return False
     return True
+
+
+def _returns_min_of_param(callee, p, via_try, _depth=0):
+    """Every value the helper returns (`x`, or `Ok(x)` when the caller unwraps it with `?`) is min(len(param p), ..)."""
+    good = 0
+    for db, _, kind, payload in callee.whole_defs(0):
+        if kind == "call":
+            cf = fn_of(payload) or {}
+            if via_try and cf.get("def") == "std::ops::FromResidual::from_residual":
+                continue  # the error return of a `?`
+            return False
+        if kind != "assign":
+            return False
+        rv = payload["rv"]
+        if via_try and rv["k"] == "aggregate" and rv.get("variant") == "Err":
+            continue
+        if via_try and rv["k"] == "aggregate" and rv.get("variant") == "Ok" and len(rv["ops"]) == 1:
+            x = rv["ops"][0]
+        elif not via_try and rv["k"] == "use":
+            x = rv["op"]
+        else:
+            return False
+        if not _min_with_len_of(callee, x, p, db, _depth + 1):
+            return False
+        good += 1
+    return good > 0
 
 
 _IV = {}
@@ -286,13 +352,59 @@ def _ordered_by_guard(b, bi, a, c):
     return None
 
 
+def _block_bases(b, bi, local, _seen=None):
+    """The non-constant places outside block bi's own temporaries that the value of `local` (computed by the
+    statements of block bi from casts and arithmetic) depends on; None when something else feeds it."""
+    blk = b.blocks[bi]
+    defs = {}
+    for s_ in blk["stmts"]:
+        if s_["k"] == "assign" and not s_["p"]["pr"]:
+            defs[s_["p"]["l"]] = s_["rv"]
+    out = []
+    seen = set()
+
+    def visit_op(o):
+        if o.get("k") == "const":
+            return True
+        if not is_place(o):
+            return False
+        p_ = o["p"]
+        if not p_["pr"] and p_["l"] in defs:
+            return visit(p_["l"])
+        if not p_["pr"]:
+            # a temporary computed once in an earlier block by a cast or copy
+            wd = b.whole_defs(p_["l"])
+            if len(wd) == 1 and wd[0][2] == "assign" and wd[0][3]["rv"]["k"] in ("use", "cast") and wd[0][0] != bi and (p_["l"], "x") not in seen:
+                seen.add((p_["l"], "x"))
+                return visit_op(wd[0][3]["rv"]["op"])
+        key = (p_["l"], json.dumps(p_["pr"], sort_keys=True))
+        if key not in seen:
+            seen.add(key)
+            out.append((p_["l"], p_["pr"]))
+        return True
+
+    def visit(l):
+        rv = defs[l]
+        if rv["k"] in ("use", "cast"):
+            return visit_op(rv["op"])
+        if rv["k"] == "binop":
+            return visit_op(rv["a"]) and visit_op(rv["b"])
+        if rv["k"] == "unop":
+            return visit_op(rv["a"])
+        return False
+
+    if local not in defs or not visit(local):
+        return None
+    return out
+
+
 def local_proof(b, bi):
     """Reason string when the panic-capable terminator of block bi is dead by a local argument, else None."""
     import ival
 
     t = b.blocks[bi]["term"]
     if t["k"] == "assert" and t["msg"].startswith("overflow:"):
-        op = t["msg"].split(":", 1)[1]
+        op = t["msg"].split(":")[1]
         cond = t.get("cond")
         if not (cond and is_place(cond) and cond["p"]["pr"]):
             return None
@@ -324,6 +436,18 @@ def local_proof(b, bi):
                 if op == "Mul" and ahi * chi <= r[1] and alo >= 0 and clo >= 0:
                     return f"interval proof: [{alo},{ahi}] * [{clo},{chi}] stays in {ty}"
         return None
+    if t["k"] == "assert" and t["msg"] in ("misaligned", "nullptr"):
+        # the debug-build pointer checks before a write through `Box::new_uninit()`'s pointer (`vec![x]`, `Box::new`
+        # lowering): the checked address is the Box's own pointer, non-null and aligned for its pointee by the type's
+        # validity invariant
+        cond = t.get("cond")
+        if cond and is_place(cond) and not cond["p"]["pr"]:
+            bases = _block_bases(b, bi, cond["p"]["l"])
+            if bases is not None and len(bases) == 1:
+                l_, pr_ = bases[0]
+                if b.local_ty(l_).startswith("std::boxed::Box<") and [e["k"] for e in pr_] == ["field", "field"] and pr_[-1].get("name") == "pointer":
+                    return "the checked address is the pointer of a live Box (non-null and aligned by the type's invariant)"
+        return None
     if t["k"] == "call":
         f = fn_of(t) or {}
         k = kind_of_call(f) or ""
@@ -341,6 +465,18 @@ def local_proof(b, bi):
                 return "range bound is min(len(slice), ..) of the same slice"
         if k.startswith("call:index:std::ops::RangeFull"):
             return "[..] cannot fail"
+        if k in ("call:result.expect", "call:result.unwrap") and t["args"]:
+            # `uN::try_from(x).expect(..)` where x always fits uN (interval analysis): the Err arm does not exist
+            tr = trace(b, t["args"][0])
+            if tr.origin and tr.origin[0] == "call" and all(s_[0] == "use" for s_ in tr.steps):
+                cf = fn_of(tr.origin[2]) or {}
+                m = re.match(r"^std::result::Result<(\w+), ", b.local_ty(tr.origin[2]["dest"]["l"])) if not tr.origin[2]["dest"]["pr"] else None
+                if cf.get("trait") in ("std::convert::TryFrom", "std::convert::TryInto") and m and m.group(1) in ival.INT_RANGE and len(tr.origin[2]["args"]) == 1:
+                    if b.id not in _IV:
+                        _IV[b.id] = ival.for_body(b)
+                    v = _IV[b.id].at_call(tr.origin[1], tr.origin[2]["args"][0]) if _IV[b.id] is not None else None
+                    if v and ival.subset(v, [ival.INT_RANGE[m.group(1)]]):
+                        return f"conversion of a value in {list(v)} to {m.group(1)} cannot fail on this target"
         if k.startswith("call:panic"):
             # an assertion whose failing branch the interval analysis proves infeasible (`debug_assert!` of a range
             # that the callers' checks already established)
@@ -570,32 +706,36 @@ def r04_2(ctx):
     cap, guard = r_c09._capture_adts(lib)
     rd = [b for b in lib.bodies if b.raw.get("impl_trait") == "std::io::Read" and b.raw.get("impl_self_adt") == cap and b.name == "read"]
     for b in rd:
-        mins = [(bb, t) for bb, t in b.calls() if (fn_of(t) or {}).get("def") in ("std::cmp::min", "std::cmp::Ord::min")]
-        ok_min = False
-        for bb, t in mins:
-            for a in t["args"]:
-                tr = trace(b, a)
-                if tr.origin and tr.origin[0] == "call" and (fn_of(tr.origin[2]) or {}).get("name") == "len" and trace(b, tr.origin[2]["args"][0]).origin == ("arg", 2):
-                    ok_min = True
-        ctx.ob("G6:prefix_size-is-min-with-buf.len", ok_min, site(b), "prefix_size = min(buf.len(), ..)" if ok_min else "the slice bound is no longer min(buf.len(), ..)")
-        if mins:
-            mres = mins[0][1]["dest"]["l"]
-            n = 0
-            for bb, t in b.calls():
+        # `read` and the helpers of the same type it hands the caller's buffer to
+        scope = [b]
+        for _, t in b.calls():
+            f = fn_of(t) or {}
+            cb = lib.by_id.get(f.get("resolved") or f.get("def")) if f.get("local") else None
+            if cb is not None and cb not in scope and cb.raw.get("impl_self_adt") == cap and any(is_place(a) and "[u8]" in b.local_ty(a["p"]["l"]) for a in t["args"]):
+                scope.append(cb)
+        n = 0
+        by_min = 0
+        for sb in scope:
+            for bb, t in sb.calls():
                 k = kind_of_call(fn_of(t) or {"def": "", "name": ""}) or ""
-                if k in ("call:split_at", "call:split_at_mut") and len(t["args"]) > 1:
-                    o = trace(b, t["args"][1])
-                    from_min = bool(o.origin and o.origin[0] == "call" and o.origin[2] is mins[0][1])
-                    n += 1
-                    ctx.ob(f"G6:slice-bound:{n}", from_min, site(b, bb), "split point is prefix_size (min)" if from_min else "split point of unknown provenance")
-                if k.startswith("call:index") and len(t["args"]) > 1:
-                    tr = trace(b, t["args"][1])
+                if not (k in ("call:split_at", "call:split_at_mut") or k.startswith("call:index:std::ops::Range")) or len(t["args"]) < 2:
+                    continue
+                if k.startswith("call:index:std::ops::RangeFull"):
+                    continue
+                root = _slice_root(sb, t["args"][0])
+                if root is None or not any("[u8]" in sb.local_ty(p_) and _subslice_of(sb, root, p_) for p_ in range(1, sb.nargs + 1)):
+                    continue  # not (a part of) the caller's buffer
+                n += 1
+                why = local_proof(sb, bb)
+                from_read = False
+                if not why and k.startswith("call:index"):
+                    tr = trace(sb, t["args"][1])
                     if tr.origin and tr.origin[0] == "agg":
-                        ops = tr.origin[1]["rv"]["ops"]
-                        from_min = any(is_place(o) and trace(b, o).origin and trace(b, o).origin[0] == "call" and trace(b, o).origin[2] is mins[0][1] for o in ops)
-                        from_read = any(is_place(o) and trace(b, o).origin and trace(b, o).origin[0] == "call" and (fn_of(trace(b, o).origin[2]) or {}).get("trait") == "std::io::Read" for o in ops)
-                        n += 1
-                        ctx.ob(f"G6:slice-bound:{n}", from_min or from_read, site(b, bb), "bound is prefix_size (min) or the source's reported read length" if from_min or from_read else "slice bound of unknown provenance")
+                        from_read = any(is_place(o) and trace(sb, o).origin and trace(sb, o).origin[0] == "call" and (fn_of(trace(sb, o).origin[2]) or {}).get("trait") == "std::io::Read" and (fn_of(trace(sb, o).origin[2]) or {}).get("name") == "read" and _slice_root(sb, trace(sb, o).origin[2]["args"][1]) == root for o in tr.origin[1]["rv"]["ops"])
+                if why and "min(len" in why:
+                    by_min += 1
+                ctx.ob(f"G6:slice-bound:{n}", bool(why) or from_read, site(sb, bb), (why or "bound is the length the source reported for a read into this very slice") if (why or from_read) else "slice bound of unknown provenance: neither min(buf.len(), ..) of the sliced buffer nor the source's reported read length")
+        ctx.ob("G6:prefix_size-is-min-with-buf.len", by_min >= 1, site(b), f"{n} slicing(s) of the caller's buffer, {by_min} bounded by min(buf.len(), ..)" if by_min >= 1 else f"{n} slicing(s) of the caller's buffer, {by_min} bounded by min(buf.len(), ..): the copy of the captured prefix is no longer limited to the caller's buffer")
     # G7: ArrayBuffer fields are written only by its own methods
     ab = [p for p, a in lib.adts.items() if a["crate"] == "xt" and a["kind"] == "struct" and any(f["ty"].startswith("[u8; ") for f in a["variants"][0]["fields"]) and sum(1 for f in a["variants"][0]["fields"] if f["ty"] == "usize") == 2]
     ctx.ob("G7:array-buffer-found", len(ab) == 1, "lib", f"fixed buffer type(s): {ab}")
@@ -628,10 +768,30 @@ def r04_2(ctx):
                             pos_f, len_f = fs
         ctx.ob("G7:pos-len-identified", pos_f is not None, adt, f"unread window is buf[{pos_f}..{len_f}]")
         if pos_f is not None:
+            def _pos_writes(b_):
+                out = []
+                for bi_, blk_ in enumerate(b_.blocks):
+                    for s_ in blk_["stmts"]:
+                        if s_["k"] == "assign" and s_["p"]["pr"] and s_["p"]["pr"][-1]["k"] == "field" and s_["p"]["pr"][-1].get("adt") == adt and s_["p"]["pr"][-1]["name"] == pos_f:
+                            out.append((bi_, s_["rv"]["k"] == "use" and const_value(s_["rv"]["op"]) == 0))
+                return out
+            # own methods that leave `pos` at 0 on every path (`clear`): calling one counts as `pos = 0`
+            zeroing = set()
+            for b in lib.bodies:
+                if b.raw.get("impl_self_adt") != adt or b.nargs < 1 or not b.local_ty(1).startswith("&mut "):
+                    continue
+                pw = _pos_writes(b)
+                if pw and all(z for _, z in pw) and b.must_pass(0, b.return_blocks(), [bi_ for bi_, _ in pw]):
+                    zeroing.add(b.id)
             for b in lib.bodies:
                 if b.raw.get("impl_self_adt") != adt:
                     continue
                 pos_zero = []
+                for bi, t_ in b.calls():
+                    f_ = fn_of(t_) or {}
+                    if (f_.get("resolved") or f_.get("def")) in zeroing and t_["args"] and is_place(t_["args"][0]) and b.local_ty(t_["args"][0]["p"]["l"]).startswith("&mut ") and adt.rsplit("::", 1)[-1] in b.local_ty(t_["args"][0]["p"]["l"]):
+                        pos_zero.append(t_.get("target"))
+                pos_zero = [z for z in pos_zero if z is not None]
                 for bi, blk in enumerate(b.blocks):
                     for s in blk["stmts"]:
                         if s["k"] == "assign" and s["p"]["pr"] and s["p"]["pr"][-1]["k"] == "field" and s["p"]["pr"][-1].get("adt") == adt and s["p"]["pr"][-1]["name"] == pos_f and s["rv"]["k"] == "use" and const_value(s["rv"]["op"]) == 0:
@@ -828,6 +988,62 @@ def r04_5(ctx):
                     if tr.origin and tr.origin[0] == "call" and (fn_of(tr.origin[2]) or {}).get("name") == "size_hint":
                         seen = True
         ctx.ob("control:hint-sized-allocation", seen, "tables/controls/src/lib.rs", "enumerator sees `with_capacity(iter.size_hint().0)` in the positive control", trivial=True)
+
+
+@rule("R04.6", 1, "the MessagePack size calculator adds sizes in usize only: no sum of a header size and a declared length is formed in a narrower integer type (it would wrap in release builds and panic in debug builds for lengths near the type's maximum)", ["C04", "C06", "C02"])
+def r04_6(ctx):
+    import r_c18
+    import ival
+
+    lib = ctx.lib
+    sccs, _ = r_c18._sccs(lib)
+    ctx.need(sccs, "size calculator (recursive component) not found")
+    scope = []
+    for fid in sccs[0]:
+        for b in lib.bodies:
+            if r_c18._root_of(lib, b).id == fid and b not in scope:
+                scope.append(b)
+    # same-file helpers the calculator calls for lengths
+    for b in list(scope):
+        for _, t in b.calls():
+            f = fn_of(t) or {}
+            cb = lib.by_id.get(f.get("resolved") or f.get("def")) if f.get("local") else None
+            if cb is not None and cb.file == scope[0].file and cb not in scope:
+                scope.append(cb)
+    n = 0
+    usize_r = ival.INT_RANGE["usize"]
+    for b in scope:
+        iv = ival.for_body(b)
+        for bi in sorted(b.reach()):
+            for si, s in enumerate(b.blocks[bi]["stmts"]):
+                if s["k"] != "assign" or s["rv"]["k"] != "binop" or s["rv"]["op"].replace("WithOverflow", "").replace("Unchecked", "") not in ("Add", "Mul", "Shl"):
+                    continue
+                ty = b.local_ty(s["p"]["l"])
+                m = re.match(r"^\((\w+), bool\)$", ty)
+                ty = m.group(1) if m else ty
+                r = ival.INT_RANGE.get(ty)
+                if r is None:
+                    continue
+                n += 1
+                if r == usize_r or (r[1] > usize_r[1]):
+                    continue
+                # narrower than usize: only acceptable when the operands provably fit
+                st = iv.state_after(bi, si - 1) if si > 0 else dict(iv.entry.get(bi, {}))
+                A = iv.val(st, s["rv"]["a"]) if st is not None else None
+                C = iv.val(st, s["rv"]["b"]) if st is not None else None
+                fits = False
+                if A and C:
+                    (alo, ahi), (clo, chi) = ival.bounds(A), ival.bounds(C)
+                    opn = s["rv"]["op"].replace("WithOverflow", "").replace("Unchecked", "")
+                    top = ahi + chi if opn == "Add" else ahi * chi if opn == "Mul" else (ahi << chi if chi < 128 else r[1] + 1)
+                    fits = top <= r[1]
+                ctx.ob(f"narrow-arithmetic:{b.name}:{_nth(_r046_seen, (ctx.config, b.id))}", fits, site(b, line=s["line"]),
+                       f"{ty} arithmetic whose operands provably fit" if fits else f"size arithmetic in {ty}: a declared length near {ty}::MAX makes the sum wrap (release) or panic (debug); the value is split at the wrong byte")
+    _r046_seen.clear()
+    ctx.ob("calculator-arithmetic-in-usize", n >= 6, site(scope[0]), f"{n} addition(s)/multiplication(s) in the size calculator ({len(scope)} bodies), all in usize or provably fitting")
+
+
+_r046_seen = {}
 
 
 @rule("R04.4", 2, "precondition of the chunker's reviewed slicing/unwrap sites: libyaml is pinned to UTF-8 (byte-accurate marks) before it is given input", ["C04", "C03"])
